@@ -166,6 +166,7 @@ pub struct Gen<'a> {
     ctx_ops: Vec<usize>,
     /// set id -> trace ids it has been pushed into
     set_pushed: std::collections::HashMap<u32, HashSet<u128>>,
+    set_parents: std::collections::HashMap<u32, HashSet<u32>>,
     depth_call: usize,
     nested_floor: usize,
     pending_ctx: Vec<usize>,
@@ -189,6 +190,7 @@ impl<'a> Gen<'a> {
             used_tids: HashSet::new(),
             ctx_ops: vec![],
             set_pushed: Default::default(),
+            set_parents: Default::default(),
             depth_call: 0,
             nested_floor: 0,
             pending_ctx: vec![],
@@ -380,6 +382,10 @@ impl<'a> Gen<'a> {
                     let pushed = self.set_pushed.entry(set).or_default().clone();
                     parents.retain(|p| self.item_tids(*p).iter().all(|t| !pushed.contains(t)));
                 }
+                // never the same set twice under the same span
+                let done = self.set_parents.entry(set).or_default().clone();
+                parents.retain(|p| !done.contains(p));
+                self.set_parents.entry(set).or_default().extend(parents.iter().copied());
                 if parents.is_empty() {
                     return None;
                 }
